@@ -325,18 +325,28 @@ func runC01(p *core.Prog, r *core.Report, tier string) {
 			}
 		})
 		r.Check(!bad, "C01.c", construct+"|one-critical-section", p.Pos(ins.Pos()), "test and mark are in one critical section", "attestedMu is released between the membership test and the mark (two overlapping runs can both pass the test)", wit...)
-		// what the filter returns are exactly the validators it marked: appended on the same edge
-		sameBlock := false
-		core.EachInstr(filterFn, func(in ssa.Instruction) {
-			if c, ok := in.(*ssa.Call); ok {
-				if b, ok := c.Call.Value.(*ssa.Builtin); ok && b.Name() == "append" && in.Block() == ins.Block() {
-					sameBlock = true
-				}
+		// what the filter returns are exactly the validators it marked: after a mark, the iteration cannot end
+		// (next membership test, or return) without the validator having been appended to the result
+		isResultAppend := func(x ssa.Instruction) bool {
+			c, ok := x.(*ssa.Call)
+			if !ok {
+				return false
 			}
-		})
-		r.Check(sameBlock, "C01.c", construct+"|returned-iff-marked", p.Pos(ins.Pos()), "a validator is added to the result on the same edge on which it is marked", "the validator is not added to the filter's result where it is marked")
+			b, ok := c.Call.Value.(*ssa.Builtin)
+			return ok && b.Name() == "append" && types.Identical(c.Type(), filterFn.Signature.Results().At(0).Type())
+		}
+		// (the append may precede or follow the mark within the iteration: both orders are the same edge)
+		iterEnd := func(x ssa.Instruction) bool { return x == ssa.Instruction(test) || core.IsReturn(x) }
+		avoidApp := func(x ssa.Instruction) bool { return isResultAppend(x) || x == ssa.Instruction(test) }
+		w1 := core.PathQuery{Fn: filterFn, From: test, Target: func(x ssa.Instruction) bool { return x == ssa.Instruction(ins) }, Avoid: avoidApp}.Find()
+		var wSkip []ssa.Instruction
+		if w1 != nil {
+			wSkip = core.PathQuery{Fn: filterFn, From: ins, Target: iterEnd, Avoid: isResultAppend}.Find()
+		}
+		r.Check(wSkip == nil, "C01.c", construct+"|returned-iff-marked", p.Pos(ins.Pos()), "a marked validator is always added to the result in the same iteration", "the validator is not added to the filter's result where it is marked", p.WitnessText(wSkip)...)
 	}
-	// every return value of the filter is built only from newly marked validators: any append to the result outside a marking block is a leak
+	// every return value of the filter is built only from newly marked validators: an iteration that appends to the
+	// result without passing a mark is a leak
 	core.EachInstr(filterFn, func(in ssa.Instruction) {
 		c, ok := in.(*ssa.Call)
 		if !ok {
@@ -349,11 +359,35 @@ func runC01(p *core.Prog, r *core.Report, tier string) {
 		if !types.Identical(c.Type(), filterFn.Signature.Results().At(0).Type()) {
 			return
 		}
-		marked := false
-		for _, ins := range innerInserts {
-			if ins.Block() == in.Block() {
-				marked = true
+		isMark := func(x ssa.Instruction) bool {
+			for _, ins := range innerInserts {
+				if x == ssa.Instruction(ins) {
+					return true
+				}
 			}
+			return false
+		}
+		isTestI := func(x ssa.Instruction) bool {
+			for _, t := range innerLookups {
+				if x == ssa.Instruction(t) {
+					return true
+				}
+			}
+			return false
+		}
+		marked := true
+		for _, t := range innerLookups {
+			a := core.PathQuery{Fn: filterFn, From: t, Target: func(x ssa.Instruction) bool { return x == in }, Avoid: func(x ssa.Instruction) bool { return isMark(x) || isTestI(x) }}.Find()
+			if a == nil {
+				continue
+			}
+			b2 := core.PathQuery{Fn: filterFn, From: in, Target: func(x ssa.Instruction) bool { return isTestI(x) || core.IsReturn(x) }, Avoid: isMark}.Find()
+			if b2 != nil {
+				marked = false
+			}
+		}
+		if len(innerLookups) == 0 {
+			marked = false
 		}
 		r.Check(marked, "C01.c", core.FnKey(filterFn)+"|append-without-mark", p.Pos(in.Pos()), "result grows only where a mark is made", "a validator is added to the filter's result on an edge where it is not marked as attested")
 	})
